@@ -16,6 +16,8 @@ import (
 	"regexp"
 	"strconv"
 	"strings"
+
+	"golang.org/x/tools/go/ssa"
 )
 
 type Clause struct {
@@ -752,6 +754,30 @@ func (env *SpecEnv) callExpr(x *ast.CallExpr) Value {
 		return FPToSBV(64, env.eval(x.Args[0]).(Term))
 	case "truncToUint64":
 		return FPToUBV(64, env.eval(x.Args[0]).(Term))
+	case "specParseIntOK", "specParseUintOK", "specParseFloatOK", "specParseIntVal", "specParseUintVal", "specParseFloatBits", "specParseIntRange", "specParseUintRange":
+		b, o, l := env.bytesOf(env.eval(x.Args[0]))
+		kind := "Int"
+		if strings.Contains(name, "Uint") {
+			kind = "Uint"
+		} else if strings.Contains(name, "Float") {
+			kind = "Float"
+		}
+		okT, valT, rngT := fx.strconvSyms(env.st, kind, b, o, l)
+		switch {
+		case strings.HasSuffix(name, "OK"):
+			return okT
+		case strings.HasSuffix(name, "Range"):
+			return rngT
+		}
+		return valT
+	case "rangeIndex":
+		f := env.st.top()
+		for _, in := range f.blk.Instrs {
+			if phi, ok := in.(*ssa.Phi); ok && phi.Comment == "rangeindex" {
+				return f.vals[phi]
+			}
+		}
+		env.fail("rangeIndex(): current loop is not a range loop")
 	case "inKeys":
 		mv, ok := env.eval(x.Args[0]).(MapVal)
 		if !ok {
